@@ -242,7 +242,8 @@ ADDED = {
     "C10": " No class derived from UnitConversions replaces a conversion routine with logic of its own; every listed unit is tried as the operand's own; "
            "the factors do not depend on the fat/protein inclusion flags.",
     "C11": " min_elementwise is evaluated (every nutrient of the result is the smaller operand's on every path, whatever the inclusion flags); the "
-           "label transformers compute label k from label k only; rounding spellings are normalised before the two arms of a predicate are compared.",
+           "label transformers compute label k from label k only; rounding spellings are normalised before the two arms of a predicate are compared; "
+           "the constructor stores every number and label in its own slot and hands the labels to the setter in the setter's order.",
     "C12": " In every stock balance the uses stand with the end-of-month stock against the stock carried in (also in months without a supply term); waste "
            "monotonicity is read per unit of supply; the LP takes no number from the process-wide conversion settings.",
     "C13": " The country-specific nuclear-winter setters are evaluated (ratio of year k = 1 + the row's change of year k); table-driven dispatch and "
@@ -257,7 +258,7 @@ ADDED = {
 }
 ROBUST = (" The rules read a canonical form of the syntax trees (comparison orientation, if/else polarity, else-after-return, keyword/positional "
           "arguments, range(0, n), method values) named tuples, tuple parameters; renamed parameters and methods are read under the names of the reference tree) and statement-level inlined helpers, so behaviour-preserving rewrites do not change the verdict "
-          "(192 sub-agent refactorings, corrected twins of the seeded refactorings and 18 kinds of whole-tree probes are replayed by the thorough tier).")
+          "(215 sub-agent refactorings, 14 corrected twins of seeded refactorings and 18 kinds of whole-tree probes are replayed by the thorough tier).")
 
 
 def main():
